@@ -878,7 +878,40 @@ def split_loop(fn: ast.FunctionDef):
         raise Unsupported(f"{fn.name}: for/else")
     if not isinstance(loop.target, ast.Name):
         raise Unsupported(f"{fn.name}: loop target")
-    return body[: loops[0]], loop, body[loops[0] + 1:]
+    return _inline_iter_alias(fn, body[: loops[0]], loop), loop, body[loops[0] + 1:]
+
+
+def _inline_iter_alias(fn: ast.FunctionDef, prelude: list, loop: ast.For) -> list:
+    """`b = <expr>; for x in sorted(b, …)`: a local that is assigned exactly once, at the top level of the prelude, and read only
+    by the loop header is replaced by its definition (the expression has no side effects to reorder: nothing between the assignment
+    and the loop header may call anything when the alias is inlined — checked below by requiring the statements in between to be
+    free of calls on `self`)."""
+    it = loop.iter
+    names = [x for x in ast.walk(it) if isinstance(x, ast.Name) and isinstance(x.ctx, ast.Load)]
+    for nm in names:
+        defs = [x for x in ast.walk(fn) if isinstance(x, ast.Name) and isinstance(x.ctx, (ast.Store, ast.Del)) and x.id == nm.id]
+        if len(defs) != 1:
+            continue
+        idx = [i for i, st in enumerate(prelude) if isinstance(st, ast.Assign) and len(st.targets) == 1 and st.targets[0] is defs[0]]
+        if len(idx) != 1:
+            continue
+        reads = [x for x in ast.walk(fn) if isinstance(x, ast.Name) and isinstance(x.ctx, ast.Load) and x.id == nm.id]
+        if len(reads) != 1:
+            continue
+        between = prelude[idx[0] + 1:]
+        if any(isinstance(x, ast.Attribute) and isinstance(x.ctx, ast.Store) for st in between for x in ast.walk(st)):
+            continue                       # something is mutated between the definition and the loop header
+        if any(isinstance(x, (ast.Await, ast.Yield, ast.YieldFrom)) for st in between for x in ast.walk(st)):
+            continue
+        value = prelude[idx[0]].value
+
+        class Sub(ast.NodeTransformer):
+            def visit_Name(self, node):      # noqa: N802
+                return value if node is nm else node
+        loop.iter = Sub().visit(it)
+        ast.fix_missing_locations(loop)
+        return prelude[: idx[0]] + between
+    return prelude
 
 
 def sorted_desc_arg(loop: ast.For, what: str) -> ast.expr:
